@@ -279,7 +279,7 @@ impl Check for C14 {
         "C14"
     }
     fn rule(&self) -> String {
-        "proptest-generated special files: kind in {fifo, socket, char device, block device}, major 0..4095, minor 0..2^20 (never opened by anybody), mode 0..0777, umask 0/022/077, sole source or 1-3 nodes inside a recursively copied tree, destination path fresh or holding a regular file / fifo / symlink / dangling symlink, --no-clobber on/off, both drivers; every run under the ptrace supervisor. Oracle: exit 0 => same S_IFMT, same st_rdev, mode = source mode & ~umask, an existing entry replaced; with -n existing entries unchanged and a collision gives exit != 0; a block device anywhere => exit != 0; the syscall log contains no open of a special source. Non-trivial: char device, mode != 0644, existing destination, or block device; distinct by case hash.".into()
+        "proptest-generated special files: kind in {fifo, socket, char device, block device}, major 0..4095, minor 0..2^20 (never opened by anybody), mode 0..0777, umask 0/022/077, sole source or 1-3 nodes inside a recursively copied tree, destination path fresh or holding a regular file / fifo / symlink / dangling symlink, --no-clobber on/off, both drivers; the xcp binary or (one case in five) a libxcp client with the record / channel / noop updater, for which 'the run fails' means copy() returns an error; every run under the ptrace supervisor. Oracle: exit 0 => same S_IFMT, same st_rdev, mode = source mode & ~umask, an existing entry replaced; with -n existing entries unchanged and a collision gives exit != 0; a block device anywhere => exit != 0; the syscall log contains no open of a special source. Non-trivial: char device, mode != 0644, existing destination, or block device; distinct by case hash.".into()
     }
     fn assumptions(&self) -> Vec<String> {
         vec!["needs CAP_MKNOD (present: uid 0); device nodes are created but never opened".into()]
